@@ -20,19 +20,22 @@ Spec == Init /\ [][Next]_l
 
 Viol(r) == CSVWrite("%1$s", <<ToJson(r)>>, "violations.ndjson")
 
+HistOf(line) == IF Has(line, "first") THEN <<[first |-> line.first, share |-> line.share]>> ELSE <<>>
 LineRec(line, failed) ==
    [case |-> line.case, T |-> line.T, opt |-> line.opt, gvs |-> line.gvs, failed |-> failed,
-    obs |-> [f \in (DOMAIN line \ {"case", "T", "opt", "gvs", "rt", "rdefs", "vals", "tng"}) |-> line[f]],
+    obs |-> [f \in (DOMAIN line \ {"case", "T", "opt", "gvs", "rt", "rdefs", "vals", "tng", "first", "share", "rfirst"}) |-> line[f]],
+    hist |-> HistOf(line),
     class |-> LineClass(line, failed)]
 
 (* the harness built the type and the values TLC asked for *)
 Realised(line) ==
    /\ line.rt = line.T
+   /\ Has(line, "first") = Has(line, "rfirst") /\ (Has(line, "first") => line.rfirst = line.first /\ line.gen1 = "ok")
    /\ \A i \in DOMAIN line.rdefs.k : line.rdefs.k[i] \in DefNames /\ line.rdefs.v[i] = Defs(line.rdefs.k[i])
-   /\ ReachNames(line.T) = {line.rdefs.k[i] : i \in DOMAIN line.rdefs.k}
+   /\ ReachNames(line.T) \cup (IF Has(line, "first") THEN ReachNames(line.first) ELSE {}) = {line.rdefs.k[i] : i \in DOMAIN line.rdefs.k}
    /\ line.gvs = GoVals(line.T)
    /\ UsesTypeNameGen(line.opt) =>        \* the type-name function the harness installed is the one of the spec
-         /\ {line.tng.k[i] : i \in DOMAIN line.tng.k} = ReachNames(line.T)
+         /\ {line.tng.k[i] : i \in DOMAIN line.tng.k} = {line.rdefs.k[i] : i \in DOMAIN line.rdefs.k}
          /\ \A i \in DOMAIN line.tng.k : line.tng.v[i] = TypeNameOf(line.opt, line.tng.k[i])
 
 Why(ref, fails) ==
@@ -46,12 +49,12 @@ ValueOK(line, i) ==
        S == line.S
        comps == line.comps IN
    IF e.enc # "ok" \/ e.json # Enc(line.T, gv)
-   THEN Viol([case |-> line.case, T |-> line.T, opt |-> line.opt, gvs |-> line.gvs, i |-> i,
+   THEN Viol([case |-> line.case, T |-> line.T, opt |-> line.opt, gvs |-> line.gvs, i |-> i, hist |-> HistOf(line),
               failed |-> "encoding_differs_from_model", got |-> e, want |-> Enc(line.T, gv), class |-> "none"])
    ELSE LET fails == Fails(S, comps, e.json, <<>>)
             ref == RefAccepts(S, comps, e.json) IN
         IF ref /\ fails = {} /\ e.of = "A" /\ e.on = "A" THEN TRUE
-        ELSE Viol([case |-> line.case, T |-> line.T, opt |-> line.opt, gvs |-> line.gvs, i |-> i, gv |-> gv,
+        ELSE Viol([case |-> line.case, T |-> line.T, opt |-> line.opt, gvs |-> line.gvs, i |-> i, gv |-> gv, hist |-> HistOf(line),
                    json |-> e.json, S |-> S, comps |-> comps, of |-> e.of, on |-> e.on,
                    reference |-> IF ref /\ fails = {} THEN "A" ELSE "R", fails |-> fails,
                    failed |-> Why(ref, fails),
@@ -62,12 +65,12 @@ ValueOK(line, i) ==
 (* and which of the table's entries for a declared type becomes its component depends on map    *)
 (* iteration order in the code: any candidate is accepted.                                      *)
 Fidelity(line) ==
-   LET m == GenAll(line.T, line.opt)
-       keys == CompKeys(line.opt, m.st) IN
+   LET m == ModelRun(FirstOf(line), line.T, line.opt)
+       keys == ModelKeys(line) IN
    \/ Diverges(line.T)
    \/ (/\ line.S = m.s
        /\ {line.comps.k[i] : i \in DOMAIN line.comps.k} = keys
-       /\ \A k \in keys : Comp(line.comps, k) \in {c.val : c \in CompCands(line.opt, m.st, k)})
+       /\ \A k \in keys : Comp(line.comps, k) \in {c.val : c \in ModelCands(line, k)})
    \/ CSVWrite("%1$s", <<ToJson([case |-> line.case, T |-> line.T, opt |-> line.opt, S |-> line.S, comps |-> line.comps,
                                   modelS |-> m.s, modelCands |-> SetToSeq({c \in m.st.cand : \E k \in keys : Matches(line.opt, c, k)})])>>,
                 "fidelity.ndjson")
@@ -75,6 +78,10 @@ Fidelity(line) ==
 Verdict(line) ==
    IF line.gen \in {"hang", "crash", "not_run_after_repeated_hangs"} THEN Viol(LineRec(line, "generator_died"))
    ELSE IF ~Realised(line) THEN Viol(LineRec(line, "case_not_realised"))
+   (* ThrowErrorOnCycle: a recursive type is refused with a CycleError, and only a recursive type *)
+   ELSE IF line.opt = "throw" /\ Recursive(line.T, FALSE)
+        THEN IF line.gen = "cycle_error" THEN TRUE ELSE Viol(LineRec(line, "cycle_not_reported_under_ThrowErrorOnCycle"))
+   ELSE IF line.gen = "cycle_error" THEN Viol(LineRec(line, "cycle_error_for_a_type_without_cycle"))
    ELSE IF line.gen # "ok" THEN Viol(LineRec(line, "generation_failed"))
    ELSE IF ~CompsWellFormed(line.comps) \/ ~RefsResolve(line.S, line.comps)
         THEN Viol(LineRec(line, "references_do_not_resolve_in_component_map"))
